@@ -309,6 +309,7 @@ class ShortTimeFourierTransformFrameComputer(LinearFilterBankFrameComputer):
         self._started = False
         self._first_frame = True
         self._buf_len = 0
+        self._hist_len = 0
         self._chunk_dtype = np.float64
         self._kaldi_shift = kaldi_shift
         if frame_style is None:
@@ -464,6 +465,7 @@ class ShortTimeFourierTransformFrameComputer(LinearFilterBankFrameComputer):
         # algorithm should work when frame shift is greater than frame
         # length - buf_len may be negative, which will skip samples
         buf_len = self._buf_len
+        hist_len = self._hist_len
         chunk_len = len(chunk)
         total_len = chunk_len + buf_len
         noncausal_first = self._frame_style == "centered"
@@ -516,28 +518,27 @@ class ShortTimeFourierTransformFrameComputer(LinearFilterBankFrameComputer):
                     )
                 frame = self._buf
                 total_len = chunk_len + frame_length
-                buf_len = frame_length
+                buf_len = hist_len = frame_length
                 noncausal_first = False
             self._compute_frame(frame, coeffs[frame_idx])
             self._first_frame = False
         rem_len = total_len - num_frames * frame_shift
         assert rem_len < max(frame_length, self._frame_length // 2 + 1)
-        if rem_len > 0:
-            throw_away = total_len - rem_len
-            if throw_away < buf_len:
-                rem_ring_len = buf_len - throw_away
-                assert rem_ring_len < rem_len or (
-                    rem_ring_len <= rem_len and not len(chunk)
-                )
-                self._buf[
-                    self._frame_length
-                    - rem_len : self._frame_length
-                    - rem_len
-                    + rem_ring_len
-                ] = self._buf[self._frame_length - rem_ring_len :]
-                self._buf[self._frame_length - (rem_len - rem_ring_len) :] = chunk
-            else:
-                self._buf[-rem_len:] = chunk[-rem_len:]
+        # the buffer keeps up to a frame's worth of the most recent samples. The last
+        # rem_len of them still await a frame; finalize reflects the signal about its
+        # end and may have to reach further back than that
+        buf_size = self._frame_length
+        old_len = hist_len
+        hist_len = min(buf_size, old_len + chunk_len)
+        if chunk_len >= hist_len:
+            self._buf[buf_size - hist_len :] = chunk[chunk_len - hist_len :]
+        else:
+            self._buf[buf_size - hist_len : buf_size - chunk_len] = self._buf[
+                buf_size - (hist_len - chunk_len) :
+            ]
+            self._buf[buf_size - chunk_len :] = chunk
+        assert rem_len <= hist_len
+        self._hist_len = hist_len
         self._buf_len = rem_len
         self._started = True
         return coeffs
@@ -564,7 +565,12 @@ class ShortTimeFourierTransformFrameComputer(LinearFilterBankFrameComputer):
             pad_right = (num_frames - 1) * frame_shift + frame_length - buf_len
             pad_right -= pad_left
             coeffs = np.empty((num_frames, self.num_coeffs), dtype=self._chunk_dtype)
-            frames = np.pad(self._buf[-buf_len:], (pad_left, pad_right), "symmetric",)
+            # reflect as much of the signal as is still around, then drop what has
+            # already been framed
+            hist_len = max(self._hist_len, buf_len)
+            frames = np.pad(
+                self._buf[frame_length - hist_len :], (pad_left, pad_right), "symmetric"
+            )[hist_len - buf_len :]
             for frame_idx in range(num_frames):
                 frame = frames[
                     frame_idx * frame_shift : frame_idx * frame_shift + frame_length
@@ -573,6 +579,7 @@ class ShortTimeFourierTransformFrameComputer(LinearFilterBankFrameComputer):
         else:
             coeffs = np.empty((0, self.num_coeffs), dtype=self._chunk_dtype)
         self._buf_len = 0
+        self._hist_len = 0
         self._started = False
         self._first_frame = True
         return coeffs
